@@ -14,7 +14,7 @@ from lib import symx
 LEVEL = 'model_checking'
 MANIFEST = {'category': 'model_checking', 'engine': 'sre2smt+symx+z3',
  'technique': 'regular-language emptiness/inclusion queries (z3) between the live regexes and the printer grammar with capture-group markers; symbolic execution of argument()/message() over opaque texts; solver witnesses replayed through parse.message',
- 'text': 'For lines of ANY length the solver shows that every printer line (both dialects, with/without queue and connection tags) is accepted by the right regex, rejected by the other one at position 0, and that every possible capture of the regex equals the denoted fields; the glue code is executed symbolically on opaque texts. Bounded parts: solver-generated end-to-end lines with one or two arguments.',
+ 'text': 'For lines of ANY length the solver shows that every printer line (both dialects, with/without queue and connection tags) is accepted by the right regex, rejected by the other one at position 0, and that every possible capture of the regex equals the denoted fields; the glue code is executed symbolically on opaque texts. Bounded parts: solver-generated end-to-end lines with one or two arguments. Decoding is history-free: after every decoded line the argument objects are relabelled the way Message.resolve does it, and the next line must come back unlabelled; fixed-point texts at the rounding boundaries of both dialects denote exactly their decimal value.',
  'note': 'Trusted: z3 sequence theory, lib/sre2smt.py (validated against Python re on every run), spec/printer_grammar.py (the specification). Alphabet: ASCII plus one representative non-ASCII member of each of \\d \\w \\s.'}
 EXPLANATION = ('Regular-language emptiness/inclusion queries (z3 sequence theory, unbounded string length) between the regexes read from the live '
                'WlPatterns object and the printer grammar, with capture groups made visible by marker characters; symbolic execution of argument()/message() '
